@@ -40,14 +40,16 @@ func init() {
 		Plan: func(prop, tier string) []Batch {
 			if tier == "thorough" {
 				return []Batch{
-					{Mode: "truncate-all", Count: 57 * 40 * hostileGroup, Exhaustive: true, Group: hostileGroup},
-					{Mode: "subst-all", Count: 57 * 40 * 64, Exhaustive: true, Group: 64},
-					{Mode: "seeded", Count: 2000000},
+					{Mode: "truncate-all", Count: 57 * 200 * hostileGroup, Exhaustive: true, Group: hostileGroup},
+					{Mode: "subst-all", Count: 57 * 400 * 64, Exhaustive: true, Group: 64},
+					{Mode: "text-cuts", Count: textCutCount(), Exhaustive: true},
+					{Mode: "seeded", Count: 16000000},
 				}
 			}
 			return []Batch{
 				{Mode: "truncate-all", Count: 57 * 6 * hostileGroup, Exhaustive: true, Group: hostileGroup},
 				{Mode: "subst-all", Count: 57 * 12 * 64, Exhaustive: true, Group: 64},
+				{Mode: "text-cuts", Count: textCutCount(), Exhaustive: true},
 				{Mode: "seeded", Count: 200000},
 			}
 		},
@@ -220,6 +222,12 @@ func runHostile(r *core.Run) {
 		r.Fault("subst")
 		r.Event("subst %s offset %d := %#x (len %d)", pd.Site(), offs[oi], substVals[vi], len(img))
 		h.receive(pd, mut, false, "subst")
+		return
+	case "text-cuts":
+		t, from, to := textCut(r.Cfg.Index)
+		r.Fault("text_cut")
+		r.Event("text corpus %d cut [%d,%d)", t, from, to)
+		h.textParsers([]byte(textCorpus[t][from:to]))
 		return
 	}
 	// seeded: combine faults
@@ -462,7 +470,13 @@ func (h *hostile) auxParsers() {
 	case 2: // receipt-like text, cut anywhere
 		full := "id:0123456789 sub:001 dlvrd:001 submit date:2401011200 done date:2401011201 stat:DELIVRD err:000 text:hello Sub:001 Dlvrd:001 Submit_Date:2401011200 Done_Date:2401011201 Stat:DELIVRD Err:000 Text:x"
 		a := c.Intn(len(full))
+		if c.Bool() {
+			a = 0 // a prefix: the text ends inside a value
+		}
 		b := a + c.Intn(len(full)-a+1)
+		if c.Prob(1, 3) {
+			b = a + c.Intn(min(16, len(full)-a+1)) // ends shortly after it starts
+		}
 		s = []byte(full[a:b])
 		if c.Bool() {
 			keys := []string{"Sub", "sub:", "id:", "Err", "Text", "Stat", "Dlvrd", "Done_Date", "Submit_Date", "id:123", "Sub:", "text:"}
@@ -489,6 +503,52 @@ func (h *hostile) auxParsers() {
 	}
 	h.r.Fault("hostile_text")
 	h.r.Event("aux parsers on %d octets %s", len(s), hexN(s, 24))
+	h.textParsers(s)
+}
+
+// textCorpus: texts whose every prefix and every suffix is fed to the text
+// parsers (mode text-cuts): receipts in both spellings and separators,
+// concatenation headers, triplet tails, packed septets.
+var textCorpus = []string{
+	"id:0123456789 sub:001 dlvrd:001 submit date:2401011200 done date:2401011201 stat:DELIVRD err:000 text:hello world",
+	"id:\x01\x60\x17\x12\x29\x14\x24\x10\x00\x07 sub:001 dlvrd:001 Submit date:2312291424 done date:2312291424 stat:RT:0148 err:148 Text:\x00\x00\x00",
+	"id:\x04\x70\x15\x01\x16\x12\x42\x68\x61\x34sSub:001sDlvrd:000sSubmit_Date:2401161242sDone_Date:2401161242sStat:BWLISTSsErr:163sText:007BWLISTS\x00\x00",
+	"Sub:001 Dlvrd:001 Submit_Date:2401011200 Done_Date:2401011201 Stat:DELIVRD Err:000 Text:x id:ABCDEFGHIJ",
+	"text:a err:1 stat:S done date:1 submit date:2 dlvrd:3 sub:4 id:5",
+	"\x05\x00\x03\x7f\x02\x01hello concatenated world",
+	"\x06\x08\x04\x01\x02\x03\x01hello concatenated world",
+	"\x00\x01\x00\x01\x07\x00\x02\x00\x01\x01\x00\x03\x00\x14ABCDEFGHIJKLMNOPQRST\x14\x00\x00\x00",
+	"\xc8\x32\x9b\xfd\x06\x5d\xdf\x72\x36\x39\x04\x1b\x1e\x1b\x65\x0d",
+}
+
+func textCutCount() uint64 {
+	n := 0
+	for _, t := range textCorpus {
+		n += 2 * (len(t) + 1)
+	}
+	return uint64(n)
+}
+
+// textCut maps an index to (corpus text, from, to): every prefix, then every suffix.
+func textCut(idx uint64) (int, int, int) {
+	i := int(idx)
+	for t, s := range textCorpus {
+		n := len(s) + 1
+		if i < n {
+			return t, 0, i
+		}
+		i -= n
+		if i < n {
+			return t, i, len(s)
+		}
+		i -= n
+	}
+	return 0, 0, 0
+}
+
+func (h *hostile) textParsers(s []byte) {
+	c := h.r.C
+	_ = c
 	str := string(s)
 	n := len(s) + 64
 	ctx := context.Background()
